@@ -20,8 +20,8 @@ CHECKS = {
             "sinks are the fixtures in harness/fx/sinks.templ (placements of the quantifier's sink kinds) generated with /repo's generator at check time",
             "generated surroundings (c01.programs) compare markup tokens (tags, attribute names and values) with tgen's reference interpreter; text runs in generated surroundings are compared by c02.renders for valid UTF-8 only",
         ],
-        "quick": {"timeout": 900, "runs": [{"run": "^TestProp(Sinks|AllScalars)$", "rapid_checks": 20000}, {"run": "^TestPropPrograms$", "rapid_checks": 3}, {"run": "^TestPropNested$", "rapid_checks": 300}]},
-        "thorough": {"timeout": 3000, "shards": 8, "runs": [{"run": "^TestProp(Sinks|AllScalars)$", "rapid_checks": 200000}, {"run": "^TestPropPrograms$", "rapid_checks": 12}, {"run": "^TestPropNested$", "rapid_checks": 4000}]},
+        "quick": {"timeout": 900, "runs": [{"run": "^TestProp(Sinks|AllScalars|Constants)$", "rapid_checks": 20000}, {"run": "^TestPropPrograms$", "rapid_checks": 3}, {"run": "^TestPropNested$", "rapid_checks": 300}]},
+        "thorough": {"timeout": 3000, "shards": 8, "runs": [{"run": "^TestProp(Sinks|AllScalars|Constants)$", "rapid_checks": 200000}, {"run": "^TestPropPrograms$", "rapid_checks": 12}, {"run": "^TestPropNested$", "rapid_checks": 4000}]},
     },
     "C02": {
         "pkg": "./checks/c02",
